@@ -100,6 +100,8 @@ class Client(object):
         :rtype: True or False
 
         """
+        if self.io.recv_buffer:
+            return True
         sock_fd = self.io.socket.fileno()
         if sock_fd < 0:
             return False
